@@ -26,7 +26,7 @@ def session(d, flags):
     env = {k: v for k, v in os.environ.items() if k not in CI_VARS}
     env.update(TERM="unknown", COLUMNS="80")
     p = subprocess.run([sys.executable, "-m", "pytest", "-p", "no:cacheprovider", "-q", "-rA", f"--inline-snapshot={flags}"], cwd=d, env=env,
-                       capture_output=True, text=True, timeout=120)
+                       capture_output=True, text=True, timeout=600)
     m = re.findall(r"^(XFAIL|XPASS|PASSED|FAILED|ERROR) (\S+)", p.stdout, re.M)
     return p.returncode, sorted(m), p.stdout[-1500:]
 
